@@ -897,6 +897,16 @@ func (idx *Index) Get(key []byte) (types.Block, bool, error) {
 // Flush writes outstanding work and buffered data to the current index file
 // and updates buckets.
 func (idx *Index) Flush() (types.Work, error) {
+	return idx.FlushWith(nil)
+}
+
+// FlushWith is the same as Flush, but calls beforeWrite after the set of
+// records to flush has been fixed and before any of them is written. Records
+// that are put after that are left for the next flush.
+//
+// This allows the store to flush the primary at a point where it is certain to
+// hold every record that the index records being flushed refer to.
+func (idx *Index) FlushWith(beforeWrite func() error) (types.Work, error) {
 	// Only one Flush at a time, otherwise the 2nd Flush can swap the pools
 	// while the 1st Flush is still reading the pool being flushed. That could
 	// cause the pool being read by the 1st Flush to be written to
@@ -905,15 +915,23 @@ func (idx *Index) Flush() (types.Work, error) {
 	defer idx.flushLock.Unlock()
 
 	idx.bucketLk.Lock()
+	noData := len(idx.nextPool) == 0
+	if !noData {
+		idx.curPool = idx.nextPool
+		idx.nextPool = make(bucketPool, bucketPoolSize)
+		idx.outstandingWork = 0
+	}
+	idx.bucketLk.Unlock()
+
+	if beforeWrite != nil {
+		if err := beforeWrite(); err != nil {
+			return 0, err
+		}
+	}
 	// If no new data, then nothing to do.
-	if len(idx.nextPool) == 0 {
-		idx.bucketLk.Unlock()
+	if noData {
 		return 0, nil
 	}
-	idx.curPool = idx.nextPool
-	idx.nextPool = make(bucketPool, bucketPoolSize)
-	idx.outstandingWork = 0
-	idx.bucketLk.Unlock()
 
 	blks := make([]bucketBlock, 0, len(idx.curPool))
 	var work types.Work
